@@ -19,9 +19,9 @@ func init() {
 		},
 		Rules: []RuleDef{
 			{Name: "C09-ONCE", Floor: 3, Doc: "one channel operation per successful call; the chan field is touched only by Channel's own methods", Run: c09Run},
-			{Name: "C09-CHECK", Floor: 3, Doc: "closed is tested before send and before close; a closed channel makes Send report failure; Receive uses the comma-ok receive", Run: nop},
+			{Name: "C09-CHECK", Floor: 2, Doc: "closed is tested before send and before close; a closed channel makes Send report failure; Receive uses the comma-ok receive", Run: nop},
 			{Name: "C09-SYNC", Floor: 1, Doc: "every read and write of the closed flag is under a lock or atomic", Run: nop},
-			{Name: "C09-SAFE", Floor: 2, Doc: "each send and each close is panic-safe against a concurrent close (mutual exclusion across check and operation, recover, or sync.Once)", Run: nop},
+			{Name: "C09-SAFE", Floor: 1, Doc: "each send and each close is panic-safe against a concurrent close (mutual exclusion across check and operation, recover, or sync.Once)", Run: nop},
 		},
 	})
 }
